@@ -277,7 +277,7 @@ def main():
     c.cov["evaluations"] = int(stats.get("cases", 0))
     c.cov["distinct_nontrivial"] = int(stats.get("distinct_nontrivial", 0))
     c.cov["traces_validated_against_impl"] = max(0, int(stats.get("cases", 0)) - int(stats.get("disagree", 0)))
-    c.cov["rule"] = RULE % ("+".join(str(nrand[n]) for n, _, _ in HARNESSES), nrand["smtpd"] // 3, NDATE[c.tier])
+    c.cov["rule"] = RULE % ("+".join(str(nrand[n]) for n, _, _ in HARNESSES), nrand["smtpd"] // (6 if c.tier == "thorough" else 3), NDATE[c.tier])
     c.cov["exhaustive"] = False
     c.cov["samples"] = [x[:1200] for x in samples[:6]] or ["(no sample emitted)"]
     c.cov["input_distribution"] = {k: v for k, v in stats.items() if k not in ("cases", "distinct_nontrivial", "disagree", "oracle_fail")}
